@@ -293,6 +293,8 @@ func checkC16(c *Ctx, r *Report) {
 		r.check(len(problems) == 0, "C16.R3.read-only", name, c.pos(f.Pos()), "no write reachable from the read-only arguments", "%s", strings.Join(uniqStrings(problems), "; "))
 	}
 	c16CopyTo(c, r, "C16.R1.copyto")
+	c16CopyToFresh(c, r, "C16.R1.copyto-fresh")
+	borrow(c, r, c01R3, "C01.R3.ext-bits", "C16.R3.pack-bookkeeping", 1, "the only bits of the caller's OPT that packing rewrites are the extended-RCODE octet of its TTL", nil, "Pack changes flags of its argument beyond the documented extended-RCODE bookkeeping")
 }
 
 // witness names one value through which rt entered the set (for diagnosis): the first store into an allocation
